@@ -1,6 +1,7 @@
 """C11 - on-chain conclusions depend only on the chain, not on how it was delivered (structural part)."""
 from engine import *
 import provenance
+import guards
 import mutations
 import accessors
 import json
@@ -485,3 +486,4 @@ def r11F(F, rid='11.F'):
 	return out
 
 RULES.append(('11.F', 'filter_block remembers every transaction it reports (return true only after inserting the txid into the matched set; value-refined path rule Func.bool_return_paths)', r11F))
+RULES.append(('11.G', 'guard census: no reviewed call of a workspace function and no reviewed mutation of a stored collection gained a controlling branch condition (an added `&& cond`, early return / continue, more specific match arm in front of an act); counts per call site, name free (rules/guards.py)', lambda F: guards.for_property(F, 'C11', '11.G')))
